@@ -2170,6 +2170,13 @@ void mmd_export_token_latex_raw(DString * out, const char * source, token * t, s
 
 
 void mmd_export_token_tree_latex_raw(DString * out, const char * source, token * t, scratch_pad * scratch) {
+	// Prevent stack overflow with "dangerous" input causing extreme recursion
+	if (scratch->recurse_depth == kMaxExportRecursiveDepth) {
+		return;
+	}
+
+	scratch->recurse_depth++;
+
 	while (t != NULL) {
 		if (scratch->skip_token) {
 			scratch->skip_token--;
@@ -2179,6 +2186,8 @@ void mmd_export_token_tree_latex_raw(DString * out, const char * source, token *
 
 		t = t->next;
 	}
+
+	scratch->recurse_depth--;
 }
 
 
@@ -2393,6 +2402,13 @@ void mmd_export_token_latex_tt(DString * out, const char * source, token * t, sc
 
 
 void mmd_export_token_tree_latex_tt(DString * out, const char * source, token * t, scratch_pad * scratch) {
+	// Prevent stack overflow with "dangerous" input causing extreme recursion
+	if (scratch->recurse_depth == kMaxExportRecursiveDepth) {
+		return;
+	}
+
+	scratch->recurse_depth++;
+
 	while (t != NULL) {
 		if (scratch->skip_token) {
 			scratch->skip_token--;
@@ -2402,6 +2418,8 @@ void mmd_export_token_tree_latex_tt(DString * out, const char * source, token * 
 
 		t = t->next;
 	}
+
+	scratch->recurse_depth--;
 }
 
 int clean_text_sort(fn_holder * a, fn_holder * b) {
